@@ -336,3 +336,13 @@ func posStr(fset *token.FileSet, p token.Pos) string {
 	pp := fset.Position(p)
 	return fmt.Sprintf("%s:%d", pp.Filename, pp.Line)
 }
+
+// loadRepoCorpus loads hand-written packages of the repository (patterns relative to the repo root)
+// as a pseudo-corpus so that the IR tooling can be used on them.
+func loadRepoCorpus(patterns ...string) (*Corpus, error) {
+	pkgs, fset, err := loadPackages(repoDir, patterns...)
+	if err != nil {
+		return nil, err
+	}
+	return &Corpus{Spec: CorpusSpec{Name: "repo"}, Dir: repoDir, InRepo: true, Pkgs: pkgs, Fset: fset}, nil
+}
